@@ -205,7 +205,11 @@ def isequal_case(ty, shape, cfg, kind, tol=None):
     else:
         xs = [(E.inp(a, k) - E.inp(b, k)).fabs().cmp('lt', E.const(t, ty)) for k in range(n)]
     fam = 'isequal-int' if ty.kind == 'int' else 'isequal-flt'
-    return Case(cid(fam, ty, shape, kind, cfg, '' if tol is None else '-tol%g' % tol), 'C16', body, [a, b, r], [(r, 0, conj(xs))], 'SYM', cfg)
+    # floats: the subtraction is uninterpreted (mode UF on the P0 pipeline: identical IEEE subtractors on both sides are not
+    # matched by the SAT back end in SYM); abs and the comparison with the tolerance keep their real meaning
+    mode = 'SYM' if ty.kind == 'int' else 'UF'
+    if mode == 'UF': cfg = Cfg(cfg.isa, cfg.std, cfg.macros, 'P0', cfg.checks)
+    return Case(cid(fam, ty, shape, kind, cfg, '' if tol is None else '-tol%g' % tol), 'C16', body, [a, b, r], [(r, 0, conj(xs))], mode, cfg)
 
 def issymmetric_case(ty, M, cfg, kind):
     n = M * M
@@ -219,8 +223,10 @@ def issymmetric_case(ty, M, cfg, kind):
             req.append(E.inp(a, k).cmp('le', E.const(1 << 30, ty))); req.append(E.inp(a, k).cmp('ge', E.const(-(1 << 30), ty)))
         xs = [E.inp(a, i * M + j).cmp('eq', E.inp(a, j * M + i)) for i in range(M) for j in range(i + 1, M)]
     else:
-        # the comparison is made in double precision against the tolerance 1e-14
-        xs = [(E.inp(a, i * M + j) - E.inp(a, j * M + i)).fabs().cast(DBL).cmp('le', E.const(1e-14, DBL)) for i in range(M) for j in range(M) if i != j]
+        # the comparison is made in double precision against the tolerance 1e-14.  Written as not(|d| > tol) over *all* ordered
+        # pairs (i,j): under the requires (finite data) d is never NaN and a_ii - a_ii is 0 in IEEE arithmetic, so this is the
+        # definition |a_ij - a_ji| <= tol; the form is the one that stays valid when the subtraction is uninterpreted (mode UF)
+        xs = [(E.inp(a, i * M + j) - E.inp(a, j * M + i)).fabs().cast(DBL).cmp('gt', E.const(1e-14, DBL)).bnot() for i in range(M) for j in range(M)]
         # requires: finite data (for NaN / inf-inf differences "symmetric within tol" is not defined by the property)
         for k in range(n):
             req.append(E.inp(a, k).fabs().cmp('le', E.const(FLT_MAX[ty.bits], ty)))
@@ -232,7 +238,9 @@ def issymmetric_case(ty, M, cfg, kind):
     else:
         hook = ('    for (int k = 0; k < %d; k++) a[k] %%= (1 << 30);\n'
                 '    if (t %% 2) for (int i = 0; i < %d; i++) for (int j = 0; j < i; j++) a[i*%d+j] = a[j*%d+i];' % (n, M, M, M))
-    return Case(cid('issymmetric', ty, (M, M), kind, cfg), 'C16', body, [a, r], ens, 'SYM', cfg, requires=req, replay_values=hook)
+    mode = 'SYM' if ty.kind == 'int' else 'UF'     # floats: subtraction uninterpreted (see isequal)
+    if mode == 'UF': cfg = Cfg(cfg.isa, cfg.std, cfg.macros, 'P0', cfg.checks)
+    return Case(cid('issymmetric', ty, (M, M), kind, cfg), 'C16', body, [a, r], ens, mode, cfg, requires=req, replay_values=hook)
 
 # ----------------------------------------------------------------------------------------------
 # trace / inner / norm
@@ -342,7 +350,12 @@ def sizes_few(V):
     return sorted({1, 3, V, V + 1, 2 * V + 3})
 
 def sizes_min(V):
-    return sorted({1, V + 1, 2 * V + 3})
+    return sorted({1, 3, V + 1})
+
+def sizes_minmax(V, full):
+    """min/max: the full-domain order reasoning is decided quickly up to about 9 elements (17 for int)"""
+    s = {1, 2, 3, V - 1, V, V + 1} | ({2 * V - 1, 2 * V + 1} if full else set())
+    return sorted(x for x in s if 1 <= x <= 17)
 
 def cases(tier, seed):
     rng = random.Random(seed)
@@ -372,16 +385,17 @@ def cases(tier, seed):
                 #  is replayed natively, so they are kept small in the quick tier)
                 for op in ('min', 'max'):
                     if ty.bits == 32 or full:
-                        szs = sizes_boundary(V) if full else (sizes_few(V) if ty.kind == 'float' else sizes_min(V))
+                        szs = sizes_minmax(V, True) if full else (sizes_minmax(V, False) if ty.kind == 'float' else sizes_min(V))
+                        if ty.kind == 'float': szs = [x for x in szs if x <= 9]
                         for i, n in enumerate(szs):
                             out.append(minmax_case(op, ty, (n,), cfg, ['own', 'map'][i % 2]))
                         if ty.kind == 'int':
-                            out.append(minmax_case(op, ty, (V + 2,), cfg, 'expr'))
+                            out.append(minmax_case(op, ty, (min(V, 8) + 2,), cfg, 'expr'))
                             if full: out.append(minmax_case(op, ty, (2, 3), cfg, 'expr-sub'))
                         else:
                             for n in ((V + 1,) if not full else sizes_few(V)):
                                 out.append(minmax_case(op, ty, (n,), cfg, 'own', dom='inf'))
-                        if full or ty.kind == 'float': out.append(minmax_case(op, ty, (2, V + 1), cfg, 'own'))
+                        if full or ty.kind == 'float': out.append(minmax_case(op, ty, (2, min(V, 4)), cfg, 'own'))
                     elif main_std:
                         for n in (3, V + 1):
                             out.append(minmax_case(op, ty, (n,), cfg, 'own'))
@@ -433,12 +447,13 @@ def cases(tier, seed):
                 if (ty.bits == 32 and main_std) or full:
                     rels = ['lt', 'eq', 'ge', 'ne', 'gt', 'le']
                     for j, pred in enumerate(('all_of', 'any_of', 'none_of')):
-                        szs = (1, 2, 3, V, V + 1, 2 * V + 1) if full else ((3, V + 1) if pred != 'none_of' else (V + 1,))
+                        W = min(V, 8)
+                        szs = (1, 2, 3, W, W + 1, 2 * W + 1) if full else ((3, W + 1) if pred != 'none_of' else (W + 1,))
                         for i, n in enumerate(szs):
                             out.append(pred_case(pred, (n,), cfg, 'cmp', ty, rels[(i + j) % 6]))
                         if full or pred != 'none_of':
                             out.append(pred_case(pred, (2, 3), cfg, 'cmp-scalar', ty, rels[(j + 3) % 6]))
-                            out.append(pred_case(pred, (V + 2,), cfg, 'cmp-eval', ty, rels[(j + 1) % 6]))
+                            out.append(pred_case(pred, (W + 2,), cfg, 'cmp-eval', ty, rels[(j + 1) % 6]))
                     if ty.kind == 'int':
                         for n in ((V + 1,) if not full else (1, 3, V + 1)):
                             out.append(isequal_case(ty, (n,), cfg, 'own'))
